@@ -457,7 +457,8 @@ class PythonTypeStubsBackend(CodeBackend):
         """
         An alias of another namespace that stands for a list, map or nullable
         type is written out in annotations. The types inside it may belong to
-        namespaces that the spec of ns does not import itself.
+        namespaces that the spec of ns does not import itself. So may the
+        types of fields inherited from a struct of another namespace.
         """
         if is_alias(data_type):
             if is_user_defined_type(unwrap_aliases(data_type)[0]):
@@ -471,7 +472,7 @@ class PythonTypeStubsBackend(CodeBackend):
         elif is_map_type(data_type):
             self._import_namespaces_behind_foreign_aliases(
                 ns, data_type.value_data_type, behind)
-        elif (behind and is_user_defined_type(data_type) and
+        elif (is_user_defined_type(data_type) and
                 data_type.namespace.name != ns.name and
                 data_type.namespace not in ns.get_imported_namespaces(
                     consider_annotation_types=True)):
